@@ -50,6 +50,28 @@ def stepped_docs(rng, n):
     return docs
 
 
+def windowed_docs(rng, n):
+    """mostly empty documents; a few carriers in the first 2048-document window and better ones after it"""
+    docs = {}
+    first = set(rng.sample(range(0, 2048), 10))
+    later = set(rng.sample(range(2048, n), 8))
+    for i in range(n):
+        d = {"t": {}, "n": {}, "b4": 4}
+        if i in first:
+            d["t"]["body"] = [[rng.randrange(1, 4)] for _ in range(rng.randrange(1, 3))]
+        elif i in later:
+            d["t"]["body"] = [[rng.randrange(1, 4)] for _ in range(rng.randrange(2, 6))]
+        docs["k%05d" % i] = d
+    return docs
+
+
+def windowed_query(rng):
+    T = lambda c: {"op": "term", "f": "body", "t": [c], "b4": rng.choice([4, 4, 8])}
+    kids = [T(1), T(2), T(3)] + ([T(rng.randrange(1, 4))] if rng.random() < 0.3 else [])
+    rng.shuffle(kids)
+    return {"op": "or", "kids": kids, "b4": rng.choice([4, 8, 16, 2])}
+
+
 def stepped_plan(rng, adocs):
     """documents in key order, in one segment or two"""
     ks = sorted(adocs)
@@ -125,6 +147,15 @@ def check(run):
                                    ndocs=(12, 30), docgen=stepped_docs, qgen=stepped_query, plangen=stepped_plan,
                                    blocklimits=(1, 2, 3, 4), sweep=True)
     c11.judge_traces(run, "C12", trs, meta, "c12-sweep")
+    c11.NOTIMPL.clear()
+    run.extra["quality_events"] += sum(1 for t in trs for e in t if e["ev"] in ("quality", "blockscan", "skipq", "replace"))
+    # one large sparse segment: the array-based union of three and more clauses reads 2048 documents at a time;
+    # its bounds must cover the (boosted) postings of the windows still to come
+    trs, meta, cases = c11.collect(run, rng, 2 if quick else 10, 5 if quick else 8, "exact", thresholds, quality=True,
+                                   ndocs=(2100, 2600), nsteps=(4, 10), docgen=windowed_docs, qgen=windowed_query,
+                                   plangen=lambda r, adocs: [("commit", sorted(adocs), {"merge": False})],
+                                   blocklimits=(None,))
+    c11.judge_traces(run, "C12", trs, meta, "c12-windows")
     c11.NOTIMPL.clear()
     run.extra["quality_events"] += sum(1 for t in trs for e in t if e["ev"] in ("quality", "blockscan", "skipq", "replace"))
     if not run.extra.get("quality_events"):
